@@ -57,6 +57,38 @@ Theorem C19_clone_image : forall K sx s0 es1 es1' es2 rev, (0 < K)%nat ->
   image K (src s) sx = image K (src s0) sx /\
   wf K (dst s) /\ fst (read_all K (dst s)) = image K (src s0) sx /\
   drev s = rev.
+Proof.
+  intros K sx s0 es1 es1' es2 rev HK Hs H1 H1' Hc H2.
+  apply clone_image; auto. exact (Forall_impl _ clone_pre_try H1).
+Qed.
+
+(** The same with failed steps.  An UpdateCloneInfo whose write of volume.meta ([CloneInfoFail 0 _]) or of the
+    head's metadata ([CloneInfoFail 1 _], the counter is already set then) fails returns its error and does not
+    rewire the head; a Server.Reload that fails changes nothing (no event).  sync.CloneReplica returns the error
+    (then there is no Reload, the clone is never declared completed and nothing is claimed) or the step is tried
+    again: whenever the flow reaches its end -- a successful CloneInfo after any number of failed attempts, then
+    the Reload -- the conclusions of [C19_clone_image] hold, in particular the counter is the one of the
+    SUCCESSFUL attempt.  (What the check adds on the implementation: a step that swallows its error makes a flow
+    "complete" that the model stops, and the oracle -- image of S, recorded counter -- is evaluated on it.) *)
+Theorem C19_clone_image_after_failed_steps : forall K sx s0 es1 es1' es2 rev, (0 < K)%nat ->
+  clone_start_ok K sx s0 ->
+  Forall clone_try_ev es1 -> Forall clone_pre_ev es1' ->
+  (forall i b, (1 <= i <= sx)%nat -> (b < nblk (src s0))%nat -> copied_in (es1 ++ es1') i b) ->
+  Forall clone_post_ev es2 ->
+  let s := run true K s0 (es1 ++ CloneInfo rev :: es1' ++ DstReload :: es2) in
+  nf (dst s) = S sx /\
+  image K (dst s) (S sx) = image K (src s0) sx /\
+  image K (src s) sx = image K (src s0) sx /\
+  wf K (dst s) /\ fst (read_all K (dst s)) = image K (src s0) sx /\
+  drev s = rev.
 Proof. exact clone_image. Qed.
 
+(** a flow that stops at a failed UpdateCloneInfo leaves the clone unwired: nothing but the counter changed *)
+Theorem C19_failed_cloneinfo_changes_no_data : forall K s stage rev,
+  let s' := step true K s (CloneInfoFail stage rev) in
+  src s' = src s /\ dst s' = dst s /\ wired s' = wired s /\ reloaded s' = reloaded s /\ uph s' = uph s.
+Proof. intros K s stage rev. cbn [step]. destruct (reloaded s || (stage =? 0)%nat); cbn; auto. Qed.
+
 Print Assumptions C19_clone_image.
+Print Assumptions C19_clone_image_after_failed_steps.
+Print Assumptions C19_failed_cloneinfo_changes_no_data.
